@@ -69,7 +69,7 @@ GUARDS = {
     'other.is_Function and other.func == trap and (other.args[0] == t)': 'trap',
     'alpha == 0': 'trap0',
     'other.is_Pow and other.args[1] == -1 and other.args[0].has(t)': 'S_recipfn',
-    'foo.is_polynomial(t) and foo.as_poly(t).is_linear and foo.is_complex': 'reciplin',
+    'foo.is_polynomial(t) and foo.as_poly(t).is_linear and sympify(-foo.coeff(t, 0) / foo.coeff(t, 1)).as_real_imag()[1].is_positive': 'reciplin',
     'foo.is_Function and foo.func == cosh and (foo.args[0] == t)': 'sech',
     'foo.is_Function and foo.func == sinh and (foo.args[0] == t)': 'csch',
     'other.is_Function and other.func == tanh and (other.args[0] == t)': 'tanh',
@@ -409,7 +409,8 @@ def translate_varchanges(lcapy_dir):
     m = _method(ttree, 'TimeDomainExpression', 'FT')
     texts = [ast.unparse(s) for s in m.body]
     need = ['result = fourier_transform(self.expr, self.var, fsym, evaluate=evaluate)', 'result = result(var)',
-            'result = result.expand(diracdelta=True, wrt=var)', 'result = result.simplify()']
+            'result = result.expand(diracdelta=True, wrt=var)',
+            'if not result.sympy.has(DiracDelta):\n    result = result.simplify()']
     pos = [texts.index(x) if x in texts else -1 for x in need]
     if -1 in pos or pos != sorted(pos):
         fail(m, 'texpr.FT skeleton')
